@@ -22,9 +22,11 @@ def compose(rng, i, with_gene):
         gene = rng.choice(["HLA-", "MT-CO", "T05G5.", "orf1a/b_", "TRA@", "Dmel_CG", "nad4L:", "H2-K"]) + str(i // rng.choice([1, 2]))
     pe = str(rng.randint(1, 5))
     sv = str(rng.randint(1, 3))
-    h = f"{db}|{acc}|{entry} {desc} OS={org} OX={ox}" + (f" GN={gene}" if gene else "") + f" PE={pe} SV={sv}"
+    # isoform records of UniProt carry no PE= / SV= fields: the gene name (or OX) is then the LAST field of the header
+    tail = rng.random() < 0.75
+    h = f"{db}|{acc}|{entry} {desc} OS={org} OX={ox}" + (f" GN={gene}" if gene else "") + (f" PE={pe} SV={sv}" if tail else "")
     fields = {"id": f"{db}|{acc}|{entry}", "acc": acc, "entry": entry, "desc": desc, "org": org + " OX=" + ox, "gene": gene,
-              "pe": int(pe)}
+              "pe": int(pe) if tail else None}
     return h, fields
 
 
